@@ -14,4 +14,12 @@ fn main() {
     if has(p) && has("/repo/inmem/src/graph.rs") && has("/repo/inmem/src/dataset.rs") {
         println!("cargo:rustc-cfg=has_audit");
     }
+    // Does the index lend `&'_ SimpleTerm<'static>` (then `get_term(i).clone()` may be KEPT by safe code: op `esc`)
+    // or terms bound to the borrow (notes/fixes/C10-indexed-term-lifetime.diff)?  The same text decides
+    // `Gen.termEscapes` on the Lean side (tools/extractors/c10.py, fail-closed on any other shape); if this
+    // guess were wrong the `esc` code would not compile (harness-build failure), never pass silently.
+    let src = std::fs::read_to_string(p).unwrap_or_default();
+    if src.contains("type Term = SimpleTerm<'static>;") {
+        println!("cargo:rustc-cfg=term_escapes");
+    }
 }
